@@ -28,6 +28,7 @@ props! {
     c11 => "C11",
     c12 => "C12",
     c13 => "C13",
+    c14 => "C14",
     c17 => "C17",
     c19 => "C19",
 }
